@@ -2043,6 +2043,12 @@ M('C15','notifier-wait-deregistered-is-success','runtime/valuenotifier/listener.
 		return nil''','notifier/wait-success-only-on-notify')
 M('C15','silent-notifier-wait-result-variable','runtime/valuenotifier/listener.go','''	select {
 	case <-l.channel:
+		// the listener could have been deregistered before the value was notified: both channels are closed then
+		// and select picks one of them at random, so the deregistration has to be checked again.
+		if l.deregistered.Load() {
+			return ErrListenerDeregistered
+		}
+
 		return nil
 	case <-l.deregisteredChan:
 		return ErrListenerDeregistered
@@ -2051,6 +2057,9 @@ M('C15','silent-notifier-wait-result-variable','runtime/valuenotifier/listener.g
 	}''','''	var err error
 	select {
 	case <-l.channel:
+		if l.deregistered.Load() {
+			err = ErrListenerDeregistered
+		}
 	case <-l.deregisteredChan:
 		err = ErrListenerDeregistered
 	case <-ctx.Done():
@@ -2058,3 +2067,10 @@ M('C15','silent-notifier-wait-result-variable','runtime/valuenotifier/listener.g
 	}
 
 	return err''','', silent=True)
+M('C15','notifier-wait-no-recheck','runtime/valuenotifier/listener.go','''		if l.deregistered.Load() {
+			return ErrListenerDeregistered
+		}
+
+		return nil
+	case <-l.deregisteredChan:''','''		return nil
+	case <-l.deregisteredChan:''','notifier/wait-success-only-on-notify')
